@@ -97,6 +97,12 @@ class Session(BusSession):
                         not ((kind, flags) in (('call', 1), ('call', 2)) and target in ('unowned', 'closed') and l == 'A'):
                     continue      # (the quick tier keeps the flagged calls for the undeliverable targets, from one sender)
                 ops.append(['send', l, target, kind, flags])
+        # a call whose header ALREADY carries a SENDER field (which the bus must overwrite), stored in front of the other
+        # fields and longer than the real unique name: routing must not depend on where the fields the bus did not touch
+        # ended up after its edit
+        if l == 'A':
+            for target in ('N', 'uB'):
+                ops.append(['send', l, target, 'callfs', 0])
         return ops
 
     def ops(self):
@@ -142,7 +148,10 @@ class Session(BusSession):
         tok = b'T%d' % self.tok
         body = [R.S(tok), R.S(PAD if pad else b'p')]
         dest = self.target_name(target)
-        if kind == 'call':
+        if kind == 'callfs':
+            m = R.method_call(s, dest, '/t', 't.i', 'Ping', body, flags=flags)
+            m.fields.insert(0, (R.F_SENDER, (b's', b'com.example.Forged.Sender.Of.Thirty.Six')))
+        elif kind == 'call':
             m = R.method_call(s, dest, '/t', 't.i', 'Ping', body, flags=flags)
         elif kind == 'signal':
             m = R.signal(s, '/t', 't.i', 'Sig', body, dest=dest, flags=flags)
@@ -175,6 +184,7 @@ class Session(BusSession):
         if op[0] == 'send':
             m, tok = built
             _, l, target, kind, flags = op
+            kind = 'call' if kind == 'callfs' else kind
             exp.update(tok=tok, kind=kind, flags=flags, sender=l, serial=m.serial, msg=m)
             if target == 'bus':
                 exp['bus'] = True
